@@ -2,6 +2,7 @@ from __future__ import annotations
 
 import math
 import re
+import struct
 from collections.abc import Callable, Sequence
 from dataclasses import dataclass, field
 from typing import Any, Literal, NoReturn, cast, overload
@@ -965,21 +966,21 @@ class AttrParser(BaseParser):
                 assert len(data_values) == 1, "Fatal error in parser"
                 data_values *= type_num_values
 
-        if isinstance(type.element_type, AnyFloat):
-            new_type = cast(RankedStructure[AnyFloat], type)
-            new_data = cast(Sequence[int | float], data_values)
-            return DenseIntOrFPElementsAttr.from_list(new_type, new_data)
-        elif isinstance(type.element_type, ComplexType):
-            new_type = cast(RankedStructure[ComplexType], type)
-            return DenseIntOrFPElementsAttr.from_list(new_type, data_values)  # pyright: ignore[reportCallIssue,reportUnknownVariableType,reportArgumentType]
-        else:
-            new_type = cast(RankedStructure[IntegerType | IndexType], type)
-            new_data = cast(Sequence[int], data_values)
-            try:
+        try:
+            if isinstance(type.element_type, AnyFloat):
+                new_type = cast(RankedStructure[AnyFloat], type)
+                new_data = cast(Sequence[int | float], data_values)
                 return DenseIntOrFPElementsAttr.from_list(new_type, new_data)
-            except ValueError as e:
-                # e.g. an element that is out of range for the element type
-                self.raise_error(str(e))
+            elif isinstance(type.element_type, ComplexType):
+                new_type = cast(RankedStructure[ComplexType], type)
+                return DenseIntOrFPElementsAttr.from_list(new_type, data_values)  # pyright: ignore[reportCallIssue,reportUnknownVariableType,reportArgumentType]
+            else:
+                new_type = cast(RankedStructure[IntegerType | IndexType], type)
+                new_data = cast(Sequence[int], data_values)
+                return DenseIntOrFPElementsAttr.from_list(new_type, new_data)
+        except (ValueError, OverflowError, struct.error) as e:
+            # e.g. an element that is out of range for the element type
+            self.raise_error(str(e))
 
     def _parse_builtin_dense_attr(self) -> DenseIntOrFPElementsAttr:
         return self.parse_dense_int_or_fp_elements_attr(None)
@@ -1162,7 +1163,13 @@ class AttrParser(BaseParser):
             """
             if isinstance(self.value, tuple):
                 parser.raise_error("No conversion from complex to float")
-            return float(self.value)
+            try:
+                return float(self.value)
+            except OverflowError:
+                parser.raise_error(
+                    "Integer value too large to convert to float",
+                    at_position=self.span,
+                )
 
         def to_complex(
             self, parser: AttrParser, type: ComplexType
@@ -1171,7 +1178,13 @@ class AttrParser(BaseParser):
                 parser.raise_error("Expected complex value", at_position=self.span)
 
             if isinstance(type.element_type, AnyFloat):
-                return (float(self.value[0]), float(self.value[1]))
+                try:
+                    return (float(self.value[0]), float(self.value[1]))
+                except OverflowError:
+                    parser.raise_error(
+                        "Integer value too large to convert to float",
+                        at_position=self.span,
+                    )
 
             match type.element_type:
                 case IntegerType():
